@@ -106,6 +106,8 @@ func GenTSRun(r *Rand) *TSRunProgram {
 		exported bool
 	}
 	allEnumNames := map[string]bool{}
+	forcedKind := map[string]int{} // enum member name -> forced initialiser kind (see the switch below)
+	enumBlocksPlanned := 0
 	nsPlans := map[int][]planned{}
 	enumPlans := map[int][]string{}
 	allExports := map[string]bool{}
@@ -145,11 +147,29 @@ func GenTSRun(r *Rand) *TSRunProgram {
 						if c := pool[r.Intn(len(pool))]; !used[c] {
 							name = c
 						}
+					} else if r.Chance(1, 6) && !used[nsName] {
+						// a member named like the enum itself: inside the body the name then means the member
+						name = nsName
+						p.Stats["enum-member-named-like-enum"]++
 					}
 					used[name] = true
 					allEnumNames[name] = true
 					ms = append(ms, name)
 				}
+				if enumBlocksPlanned > 0 && !used[nsName] && r.Chance(1, 3) {
+					// a LATER block of the merged enum that declares a member named like the enum, then reads an earlier
+					// block's member by its bare name, then auto-increments from it
+					used[nsName] = true
+					allEnumNames[nsName] = true
+					mno += 2
+					refName, autoName := fmt.Sprintf("m%d", mno-1), fmt.Sprintf("m%d", mno)
+					used[refName], used[autoName] = true, true
+					allEnumNames[refName], allEnumNames[autoName] = true, true
+					forcedKind[refName], forcedKind[autoName] = 4, 0
+					ms = append(ms, nsName, refName, autoName)
+					p.Stats["enum-later-block-self-named-then-sibling-ref"]++
+				}
+				enumBlocksPlanned++
 				enumPlans[pi] = ms
 			}
 		}
@@ -253,7 +273,11 @@ func GenTSRun(r *Rand) *TSRunProgram {
 			haveNext := true
 			for _, name := range enumPlans[pi] {
 				memberNo++
-				switch r.Intn(5) {
+				kindChoice := r.Intn(5)
+				if fk, ok := forcedKind[name]; ok {
+					kindChoice = fk
+				}
+				switch kindChoice {
 				case 0:
 					if !haveNext {
 						fmt.Fprintf(&sb, "  %s = %d,\n", name, memberNo)
@@ -281,7 +305,17 @@ func GenTSRun(r *Rand) *TSRunProgram {
 					if len(enumOrder) > 0 && r.Bool() {
 						ref = enumOrder[r.Intn(len(enumOrder))]
 					}
-					if ref == name {
+					if _, forced := forcedKind[name]; forced {
+						for _, cand := range enumOrder { // an earlier member with a numeric value
+							if v := enumMembers[cand]; cand != nsName && !strings.HasPrefix(v, "\"") {
+								ref = cand
+								break
+							}
+						}
+					}
+					if ref == name || ref == nsName {
+						// (a bare reference to the member that is named like the enum itself is not generated: TypeScript
+						// resolves it to the member, esbuild to the enum object — recorded as known finding c06-self-named-member-reference)
 						continue
 					}
 					if _, ok := enumMembers[ref]; !ok && allEnumNames[ref] {
